@@ -6,6 +6,7 @@ import (
 	"math/rand"
 	"net/url"
 	"reflect"
+	"regexp"
 	"sort"
 	"strings"
 	"unicode/utf8"
@@ -34,6 +35,8 @@ var c18UrlStrings = []string{"hello world", "a b c", " lead", "trail ", "a  b", 
 	"ab\tcd", "a\nb", "x\x7f", "\x01",
 	// texts that a numeric reading would call zero, false or nothing: as strings they are supplied values like any other
 	"0", "00", "0.0", "-0", "false", "null", "nil", "0x0", "+0", " "}
+
+var reC18Msg = regexp.MustCompile(`\|(m|必)_[0-9A-Za-z_]+`)
 
 func c18Markers(o drive.Out) (set []string, other []string) {
 	if o.Nil || o.Panic != "" {
@@ -85,6 +88,12 @@ func runC18(c *core.Ctx) {
 		}
 		if rules == "" {
 			continue
+		}
+		if rng.Intn(9) == 0 {
+			// several rules of one field with the SAME message (one wording for "bad value"): as many clauses as violated
+			// rules, through every carrier — the marker lists are compared with their multiplicities
+			rules = reC18Msg.ReplaceAllString(rules, fmt.Sprintf("|m_%d_same", i))
+			res.Count("rule_lists_with_one_shared_message")
 		}
 		v := gen.TunedLeaf(rng, t, rules, 0.08)
 		if t.Kind() == reflect.String && rng.Intn(4) == 0 {
